@@ -1,4 +1,7 @@
 import NdnProofs.Lemmas.SegFetch
+import NdnProofs.Lemmas.SegFetchNames
+import NdnProofs.Props.C09
+import NdnGen.C19
 /-!
 # C19 — Segmented fetch yields every segment once, in order, tolerating bounded loss
 
@@ -475,6 +478,248 @@ theorem fetch_no_final_marker (segs : List Seg) (disc limit : Nat) (sc : List Ou
     obtain ⟨y, e⟩ := fetchLoop_nofinal limit segs hno (segs.length + 1) 0 _ (by omega) (by omega) hrest
     exact ⟨by rw [y]; simp, e⟩
 
+/-! ### the names-level half: segment numbers as name components, Interests as names
+
+`segComp n` is `Component.from_segment(n)`; `fetchB` is the fetcher working on names (it replaces the last component of
+the last Data name by `from_segment(seg_no)`, tests `get_type(name[-1])`, `to_number(name[-1])` and compares
+`meta.final_block_id` with `name[-1]` as bytes) against a producer that sees Interest names only.  The component
+facts come from the proved name model (property C09). -/
+
+/-- **segment_component_roundtrip.** For every `n < 2^64`: `Component.from_segment(n)` is the component `segComp n`
+    (Type 50 = the live `TYPE_SEGMENT`, value = the minimal-width big-endian number), `get_type` reads 50 and
+    `to_number` reads `n` back, it is what the URI shorthand `seg=n` denotes (C09), and distinct numbers give distinct
+    components. -/
+theorem segment_component_roundtrip (n : Nat) (hn : n < 2 ^ 64) :
+    Comp.fromNumber (n : Int) TYPE_SEGMENT = .ok (segComp n) ∧
+    Comp.getType (segComp n) = .ok TYPE_SEGMENT ∧
+    Comp.toNumber (segComp n) = .ok n ∧
+    Comp.fromStr ("seg=".toList ++ toDec n) = .ok (segComp n) ∧
+    (∀ m, m < 2 ^ 64 → (segComp m = segComp n ↔ m = n)) ∧
+    Gen.C19.typeSegment = TYPE_SEGMENT ∧ Gen.C19.segShorthandType = TYPE_SEGMENT :=
+  ⟨fromNumber_seg n hn, segComp_getType n, segComp_toNumber n hn, (C09.fromStr_shorthand_number n hn).1,
+    fun m hm => ⟨segComp_inj m n hm hn, fun e => e ▸ rfl⟩, rfl, rfl⟩
+
+/-- the component is the C09 representation of the abstract component (50, pack_uint_bytes n): `get_type` /
+    `get_value` read that pair back (`C09.getType_getValue`) -/
+theorem segComp_is_rep (n : Nat) :
+    segComp n = C09.repC (TYPE_SEGMENT, packUint n) ∧ C09.ValidComp (TYPE_SEGMENT, packUint n) ∧
+    Comp.getValue (segComp n) = .ok (packUint n) := by
+  have hv : C09.ValidComp (TYPE_SEGMENT, packUint n) :=
+    ⟨by simp [TYPE_SEGMENT], by simp [TYPE_SEGMENT], by have := packUint_length_le n; simp only; omega⟩
+  exact ⟨rfl, hv, (C09.getType_getValue _ hv).2.2⟩
+
+/-- **final_block_id_names_segment_iff.** For a Data named `base ++ [segment component i]` whose FinalBlockId is the
+    segment component of `k`: the byte comparison `meta.final_block_id == name[-1]` succeeds iff `k = i`; without a
+    FinalBlockId it fails. -/
+theorem final_block_id_names_segment_iff (base : List Bytes) (i k c : Nat) (hi : i < 2 ^ 64) (hk : k < 2 ^ 64) :
+    (fbiNamesLast ⟨base ++ [segComp i], some (segComp k), c⟩ = true ↔ k = i) ∧
+    fbiNamesLast ⟨base ++ [segComp i], none, c⟩ = false := by
+  have := fbiNamesLast_dataOf base ⟨c, some k⟩ i hi (fun k' h => by cases h; exact hk)
+  simp only [Option.map_some] at this
+  refine ⟨by rw [this]; simp, ?_⟩
+  simp [fbiNamesLast]
+
+/-- **fetchB_refines.** For a segmented object published under `base` (the fetch prefix is no longer than `base`),
+    fewer than 2^64 − 2 segments and markers below 2^64: the fetcher on names sends, Interest by Interest, exactly
+    the names the number-level requests stand for (`pre` for discovery, `base ++ [segment component k]` for segment
+    `k`), with the same outcomes, yields the same contents and ends the same way. -/
+theorem fetchB_refines (limit : Nat) (pre base : List Bytes) (l : List Seg) (disc : Nat) (sc : List Outcome)
+    (hpre : pre.length ≤ base.length) (hfb : FbiBound l) (hlen : l.length + 2 < 2 ^ 64) :
+    fetchB limit (producer pre (.segs base l) disc) pre (l.length + 1) sc =
+      liftResult pre base (fetch ⟨.segs l, disc, sc, limit⟩) := by
+  unfold fetchB fetch
+  simp only [producer_pre, dataOf_isSome]
+  cases hr : (retry limit (decide (disc < l.length)) (limit + 1) 0 sc).1 with
+  | ok =>
+    have hlt := ok_exists limit l disc sc hr
+    have hs : l[disc]? = some l[disc] := List.getElem?_eq_getElem hlt
+    have hd : dataOf base l disc = some ⟨base ++ [segComp disc], l[disc].fbi.map segComp, l[disc].content⟩ := by
+      simp [dataOf, hs]
+    have hdisc : disc < 2 ^ 64 := by omega
+    simp only [hd, List.getLast?_concat, segComp_getType, ne_eq, not_true_eq_false, if_false,
+      segComp_toNumber disc hdisc]
+    by_cases hd0 : disc = 0
+    · subst hd0
+      simp only [if_true, hs]
+      rw [fbiNamesLast_dataOf base l[0] 0 hdisc (fun k hk => hfb 0 _ k hs hk)]
+      by_cases hf : l[0].fbi = some 0
+      · simp [hf, liftResult, reqName, List.map_map, Function.comp_def]
+      · simp only [hf, decide_false, Bool.false_eq_true, if_false]
+        rw [fetchLoopB_refines limit pre base l 0 hpre hfb (l.length + 1) 1 0 _ (by omega)]
+        simp [liftResult, reqName, List.map_map, Function.comp_def]
+    · simp only [hd0, if_false]
+      rw [fetchLoopB_refines limit pre base l disc hpre hfb (l.length + 1) 0 disc _ (by omega)]
+      simp [liftResult, reqName, List.map_map, Function.comp_def]
+  | timeout => cases dataOf base l disc <;> simp [liftResult, reqName, List.map_map, Function.comp_def, endOf]
+  | nack => cases dataOf base l disc <;> simp [liftResult, reqName, List.map_map, Function.comp_def, endOf]
+  | invalid => cases dataOf base l disc <;> simp [liftResult, reqName, List.map_map, Function.comp_def, endOf]
+  | fuel => exact absurd hr (retry_top limit _ sc).1
+
+/-- **fetchB_refines_unsegmented.** The same for an unsegmented object whose Data name ends in a component that is
+    not a segment component (whatever else the name is: the prefix itself, a version, a file name). -/
+theorem fetchB_refines_unsegmented (limit : Nat) (pre base name : List Bytes) (x : Bytes) (t c disc fuel : Nat)
+    (sc : List Outcome) (hlast : name.getLast? = some x) (ht : Comp.getType x = .ok t) (hne : t ≠ TYPE_SEGMENT) :
+    fetchB limit (producer pre (.unseg name c) disc) pre fuel sc =
+      liftResult pre base (fetch ⟨.unseg c, disc, sc, limit⟩) := by
+  unfold fetchB fetch
+  simp only [producer, if_true, Option.isSome_some]
+  cases hr : (retry limit true (limit + 1) 0 sc).1 <;>
+    simp [hlast, ht, hne, liftResult, reqName, List.map_map, Function.comp_def, endOf]
+
+/-! #### the Interests of a successful fetch, as names -/
+
+/-- the requests that were answered with Data, in the order they were sent -/
+def answered {α : Type} (lg : List (α × Outcome)) : List α :=
+  (lg.filter fun e => decide (e.2 = Outcome.data)).map (·.1)
+
+theorem answered_append {α : Type} (a b : List (α × Outcome)) : answered (a ++ b) = answered a ++ answered b := by
+  simp [answered]
+
+theorem answered_map {α β : Type} (g : α → β) (lg : List (α × Outcome)) :
+    answered (lg.map fun e => (g e.1, e.2)) = (answered lg).map g := by
+  induction lg with
+  | nil => rfl
+  | cons e r ih =>
+    simp only [answered, List.map_cons, List.filter_cons] at ih ⊢
+    split <;> simp_all
+
+/-- under tolerable loss a request's block is some losses and then the answer -/
+theorem block_tolerable (limit : Nat) (sc : List Outcome) (req : Req) (ht : Tolerable (attempts limit) 0 sc) :
+    answered ((retry limit true (limit + 1) 0 sc).2.2.map fun o => (req, o)) = [req] ∧
+    ∀ e ∈ (retry limit true (limit + 1) 0 sc).2.2.map (fun o => (req, o)), e.1 = req := by
+  obtain ⟨hok, _⟩ := retry_tolerable limit sc (limit + 1) 0 ht (by omega) (by omega)
+  obtain ⟨_, j, a2, _, _⟩ := retry_top limit true sc
+  rw [a2, hok]
+  refine ⟨?_, ?_⟩
+  · simp [answered, lastOut, List.filter_append]
+  · intro e he
+    obtain ⟨o, _, rfl⟩ := List.mem_map.mp he
+    rfl
+
+theorem fetchLoop_tolerable_log (limit : Nat) (segs : List Seg) (f : Nat) (hfin : IsFinal segs f) :
+    ∀ (fuel i : Nat) (sc : List Outcome), i ≤ f → f + 1 ≤ fuel + i → Tolerable (attempts limit) 0 sc →
+    answered (fetchLoop limit segs fuel i sc).log = (List.range' i (f + 1 - i)).map Req.seg ∧
+    ∀ e ∈ (fetchLoop limit segs fuel i sc).log, ∃ k, i ≤ k ∧ k ≤ f ∧ e.1 = Req.seg k := by
+  obtain ⟨⟨sf, hsf, hsff⟩, hbefore⟩ := hfin
+  have hflt : f < segs.length := by
+    rcases Nat.lt_or_ge f segs.length with h | h
+    · exact h
+    · simp [List.getElem?_eq_none h] at hsf
+  have hsf' : segs[f] = sf := by
+    have := List.getElem?_eq_getElem hflt
+    rw [this] at hsf; exact Option.some.inj hsf
+  intro fuel
+  induction fuel with
+  | zero => intro i sc h1 h2; omega
+  | succ n ih =>
+    intro i sc h1 h2 h3
+    have hilt : i < segs.length := by omega
+    have hdec : decide (i < segs.length) = true := by simp [hilt]
+    obtain ⟨hok, hrest⟩ := retry_tolerable limit sc (limit + 1) 0 h3 (by omega) (by omega)
+    obtain ⟨hb1, hb2⟩ := block_tolerable limit sc (Req.seg i) h3
+    have hs : segs[i]? = some segs[i] := List.getElem?_eq_getElem hilt
+    rw [fetchLoop_succ, hdec, hok, hs]
+    simp only
+    by_cases hif : i = f
+    · subst hif
+      have : segs[i].fbi = some i := by rw [hsf']; exact hsff
+      simp only [this, if_true]
+      refine ⟨?_, ?_⟩
+      · rw [hb1]
+        have : i + 1 - i = 1 := by omega
+        rw [this]; simp [List.range']
+      · intro e he; exact ⟨i, Nat.le_refl _, Nat.le_refl _, hb2 e he⟩
+    · have hne : segs[i].fbi ≠ some i := hbefore i _ (by omega) hs
+      simp only [hne, if_false]
+      obtain ⟨y1, y2⟩ := ih (i + 1) _ (by omega) (by omega) hrest
+      refine ⟨?_, ?_⟩
+      · rw [answered_append, hb1, y1]
+        have : f + 1 - i = (f + 1 - (i + 1)) + 1 := by omega
+        rw [this, List.range'_succ]; simp
+      · intro e he
+        rcases List.mem_append.mp he with h | h
+        · exact ⟨i, Nat.le_refl _, h1, hb2 e h⟩
+        · obtain ⟨k, k1, k2, k3⟩ := y2 e h
+          exact ⟨k, by omega, k2, k3⟩
+
+/-- the requests of a successful fetch: discovery, then segments `i0 … f` where `i0 = 1` when discovery was
+    answered by segment 0 and `0` otherwise; nothing beyond `f` is ever requested -/
+theorem fetch_tolerable_log (segs : List Seg) (disc limit f : Nat) (sc : List Outcome)
+    (hfin : IsFinal segs f) (hd : disc < segs.length) (ht : Tolerable (attempts limit) 0 sc) :
+    answered (fetch ⟨.segs segs, disc, sc, limit⟩).log =
+      Req.disc :: (List.range' (if disc = 0 then 1 else 0) (f + 1 - (if disc = 0 then 1 else 0))).map Req.seg ∧
+    ∀ e ∈ (fetch ⟨.segs segs, disc, sc, limit⟩).log, e.1 = Req.disc ∨ ∃ k, k ≤ f ∧ e.1 = Req.seg k := by
+  have hfin' := hfin
+  obtain ⟨⟨sf, hsf, hsff⟩, hbefore⟩ := hfin
+  have hflt : f < segs.length := by
+    rcases Nat.lt_or_ge f segs.length with h | h
+    · exact h
+    · simp [List.getElem?_eq_none h] at hsf
+  obtain ⟨hok, hrest⟩ := retry_tolerable limit sc (limit + 1) 0 ht (by omega) (by omega)
+  obtain ⟨hb1, hb2⟩ := block_tolerable limit sc Req.disc ht
+  have hdec : decide (disc < segs.length) = true := by simp [hd]
+  unfold fetch
+  simp only [hdec, hok]
+  by_cases hd0 : disc = 0
+  · simp only [hd0, if_true]
+    have h0 : 0 < segs.length := by omega
+    have hs : segs[0]? = some segs[0] := List.getElem?_eq_getElem h0
+    rw [hs]
+    simp only
+    by_cases hf0 : f = 0
+    · subst hf0
+      have hsf' : segs[0] = sf := by rw [hs] at hsf; exact Option.some.inj hsf
+      have : segs[0].fbi = some 0 := by rw [hsf']; exact hsff
+      simp only [this, if_true]
+      exact ⟨by rw [hb1]; simp, fun e he => .inl (hb2 e he)⟩
+    · have hne : segs[0].fbi ≠ some 0 := hbefore 0 _ (by omega) hs
+      simp only [hne, if_false]
+      obtain ⟨y1, y2⟩ := fetchLoop_tolerable_log limit segs f hfin' (segs.length + 1) 1 _ (by omega) (by omega) hrest
+      refine ⟨by rw [answered_append, hb1, y1]; rfl, ?_⟩
+      intro e he
+      rcases List.mem_append.mp he with h | h
+      · exact .inl (hb2 e h)
+      · obtain ⟨k, _, k2, k3⟩ := y2 e h; exact .inr ⟨k, k2, k3⟩
+  · simp only [hd0, if_false]
+    obtain ⟨y1, y2⟩ := fetchLoop_tolerable_log limit segs f hfin' (segs.length + 1) 0 _ (by omega) (by omega) hrest
+    refine ⟨by rw [answered_append, hb1, y1]; rfl, ?_⟩
+    intro e he
+    rcases List.mem_append.mp he with h | h
+    · exact .inl (hb2 e h)
+    · obtain ⟨k, _, k2, k3⟩ := y2 e h; exact .inr ⟨k, k2, k3⟩
+
+/-- **fetch_yields_all_once_in_order_names.** `fetch_yields_all_once_in_order` at the level of names: for a segmented
+    object published under `base` whose segment `f` is designated final (its FinalBlockId is byte-equal to the last
+    component of its own name), whichever existing segment answers discovery and under tolerable loss, the fetcher
+    yields the contents of segments `0 … f` once each in order and finishes; every Interest it sends is named either
+    the prefix or `base ++ [Component.from_segment(k)]` with `k ≤ f`; and the Interests that are answered are, in
+    order, the prefix and then `base ++ [from_segment(k)]` for `k = 0, 1, …, f` (from 1 when discovery already
+    delivered segment 0). -/
+theorem fetch_yields_all_once_in_order_names (pre base : List Bytes) (segs : List Seg) (disc limit f : Nat)
+    (sc : List Outcome) (hfin : IsFinal segs f) (hd : disc < segs.length) (ht : Tolerable (attempts limit) 0 sc)
+    (hpre : pre.length ≤ base.length) (hfb : FbiBound segs) (hlen : segs.length + 2 < 2 ^ 64) :
+    let r := fetchB limit (producer pre (.segs base segs) disc) pre (segs.length + 1) sc
+    r.yielded = contents (segs.take (f + 1)) ∧ r.end_ = .fin .done ∧
+    (∀ e ∈ r.log, e.1 = pre ∨ ∃ k, k ≤ f ∧ e.1 = base ++ [segComp k]) ∧
+    answered r.log = pre :: (List.range' (if disc = 0 then 1 else 0) (f + 1 - (if disc = 0 then 1 else 0))).map
+      (fun k => base ++ [segComp k]) := by
+  intro r
+  have hr : r = liftResult pre base (fetch ⟨.segs segs, disc, sc, limit⟩) :=
+    fetchB_refines limit pre base segs disc sc hpre hfb hlen
+  obtain ⟨hy, he⟩ := fetch_yields_all_once_in_order segs disc limit f sc hfin hd ht
+  obtain ⟨ha, hreq⟩ := fetch_tolerable_log segs disc limit f sc hfin hd ht
+  rw [hr]
+  refine ⟨hy, by simp [liftResult, he], ?_, ?_⟩
+  · intro e hm
+    simp only [liftResult, List.mem_map] at hm
+    obtain ⟨x, hx, rfl⟩ := hm
+    rcases hreq x hx with h | ⟨k, hk, h⟩
+    · left; simp [h, reqName]
+    · right; exact ⟨k, hk, by simp [h, reqName]⟩
+  · simp only [liftResult]
+    rw [answered_map (reqName pre base), ha]
+    simp [reqName, List.map_map, Function.comp_def]
+
 /-! ### non-vacuity -/
 
 section Examples
@@ -509,6 +754,22 @@ example : fetch ⟨.unseg 7, 0, [.timeout], 2⟩ = ⟨[7], [(.disc, .timeout), (
 example : NoFinal [⟨1, none⟩, ⟨2, some 5⟩] := by
   intro j s hs
   rcases j with _ | _ | j <;> simp at hs <;> subst hs <;> decide
+
+/-- names level: object `/a/v=1` (`08 01 61`, `36 01 01`), fetched by the prefix `/a`; discovery answered by segment 1,
+    one loss on discovery and one on segment 0 — every Interest name byte for byte -/
+example : fetchB 3 (producer [[8, 1, 97]] (.segs [[8, 1, 97], [54, 1, 1]] exSegs) 1) [[8, 1, 97]] 5
+      [.timeout, .data, .timeout, .data] =
+    ⟨[10, 11, 12],
+     [([[8, 1, 97]], .timeout), ([[8, 1, 97]], .data),
+      ([[8, 1, 97], [54, 1, 1], [50, 1, 0]], .timeout), ([[8, 1, 97], [54, 1, 1], [50, 1, 0]], .data),
+      ([[8, 1, 97], [54, 1, 1], [50, 1, 1]], .data), ([[8, 1, 97], [54, 1, 1], [50, 1, 2]], .data)],
+     .fin .done⟩ := by decide
+example : segComp 300 = [50, 2, 1, 44] := by decide
+example : FbiBound exSegs := by
+  intro j s k hs hk
+  have : k = 2 := by
+    rcases j with _ | _ | _ | _ | j <;> simp [exSegs] at hs <;> subst hs <;> simp at hk <;> omega
+  omega
 end Examples
 
 end Ndn.C19
